@@ -1099,6 +1099,11 @@ class StrategyBase(Node):
 
         The result is a MultiIndex DataFrame.
         """
+        # a strategy that never created a security has no transactions
+        if not self.securities:
+            idx = pd.MultiIndex.from_arrays([[], []], names=["Date", "Security"])
+            return pd.DataFrame({"price": [], "quantity": []}, index=idx, dtype=float)
+
         # get prices for each security in the strategy & create unstacked
         # series
         prc = pd.DataFrame({x.name: x.prices for x in self.securities}).unstack()
